@@ -97,6 +97,7 @@ type FEnc struct {
 	axiomsUsed []string
 	lemmasUsed []string
 	isLemma bool
+	lemmaIndex int
 	noFacts bool
 	ghostText []string
 	ghostDone bool
